@@ -24,7 +24,7 @@ ASSUMPTIONS = ['bounded time = at most 200 000 line/jump events of the interpret
                'terminating calls is reported as max_line_events)',
                'only Exception subclasses are injected into callbacks (KeyboardInterrupt/SystemExit are not "raising callbacks")',
                'a result that is a list *containing* error objects is not excluded by the statement',
-               'the typed pool of the function sweep holds numbers <= 1000 in magnitude; huge arguments (1e9 .. 1e308) and huge integer powers are the subject of c01.blowups, where a 3 s wall-clock alarm stands in for the step budget',
+               'the typed pool of the function sweep holds numbers <= 1000 in magnitude; huge arguments (1e9 .. 1e308) and huge integer powers are the subject of c01.blowups, where a 3 s CPU-time alarm (wall-clock backstop 30 s) stands in for the step budget',
                'host lists that contain themselves and lists nested 3000 deep are in the bound']
 
 
@@ -497,6 +497,37 @@ class WallTimeout(BaseException):
     pass
 
 
+# The alarms of this module count the CPU time of the checking process (ITIMER_PROF: user + system time), with a
+# wall-clock backstop ten times as long: a machine under load stretches wall-clock time without bound (a comment-only
+# change to the library was once reported because twenty other jobs shared the cores) but CPU time hardly, while
+# something blocked below the Python level burns no CPU and is still caught by the backstop.
+BACKSTOP = 10
+
+
+def _install(handler):
+    import signal
+    return (signal.signal(signal.SIGALRM, handler), signal.signal(signal.SIGPROF, handler))
+
+
+def _restore(olds):
+    import signal
+    _disarm()
+    signal.signal(signal.SIGALRM, olds[0])
+    signal.signal(signal.SIGPROF, olds[1])
+
+
+def _arm(seconds):
+    import signal
+    signal.setitimer(signal.ITIMER_PROF, seconds)
+    signal.setitimer(signal.ITIMER_REAL, BACKSTOP * seconds)
+
+
+def _disarm():
+    import signal
+    signal.setitimer(signal.ITIMER_PROF, 0)
+    signal.setitimer(signal.ITIMER_REAL, 0)
+
+
 ACTION_INNER = ['1+1', 'FN(1)+va', 'A1+SUM(A1:B2)', '1+', 'nosuch']
 ACTIONS = ([('parse-same', t) for t in ACTION_INNER] + [('parse-other', 'FN(1)+va+A1')] +
            [('rearm-all', None), ('chain-all', None), ('once-chain', None), ('off-all', None), ('off-on', None),
@@ -508,7 +539,7 @@ class Actions(Sub):
     rule = ('21 templates x every callback invocation x 14 things a well-behaved host callback may DO besides returning '
             '(evaluate one of 5 formulas on the SAME parser or another one, subscribe listeners that subscribe further '
             'listeners when called, re-subscribe itself, unsubscribe everything, rebind a variable or function, build a '
-            'parser): parse returns a well-formed record within the step budget and within a 5 s wall-clock alarm '
+            'parser): parse returns a well-formed record within the step budget and within a 5 s CPU-time alarm (wall-clock backstop 50 s) '
             '(a deadlock executes no Python lines); non-trivial = the action ran')
     min_cases = 500
     min_nontrivial = 300
@@ -621,27 +652,27 @@ class Actions(Sub):
 
         def onalarm(signum, frame):
             raise WallTimeout()
-        old = signal.signal(signal.SIGALRM, onalarm)
-        signal.alarm(self.ALARM)
+        old = _install(onalarm)
+        _arm(self.ALARM)
         try:
             try:
                 prob, raw = run_parse(env, p, text)
             except WallTimeout:
                 # confirm on a fresh parser with a longer alarm (a loaded machine is not a deadlock)
-                signal.alarm(0)
+                _disarm()
                 counter['n'] = counter['fired'] = 0
                 box.clear()
                 p = box['p'] = build()
-                signal.alarm(6 * self.ALARM)
+                _arm(6 * self.ALARM)
                 try:
                     prob, raw = run_parse(env, p, text)
                 except WallTimeout:
                     env._c01_stalls = getattr(env, '_c01_stalls', 0) + 1
-                    prob = ('parse did not return within %d s of wall-clock time (and not within %d s before that; normal: < 10 ms): '
+                    prob = ('parse did not return within %d s of CPU time (nor within ten times that in wall-clock time) (and not within %d s before that; normal: < 10 ms): '
                             'blocked below the Python level (deadlock)' % (6 * self.ALARM, self.ALARM))
         finally:
-            signal.alarm(0)
-            signal.signal(signal.SIGALRM, old)
+            _disarm()
+            _restore(old)
         if counter['fired'] < len(plan):
             env.note('site beyond the template')
             return None
@@ -692,7 +723,7 @@ class Blowups(Sub):
     name = 'c01.blowups'
     rule = ('each documented function x arity 1..3 x every argument tuple over {1e9, 1e12-1, -1e9, 1e308, 2^70, 0.5, 2, "abc", the text "1e999999999"} that '
             'holds at least one huge number (variables), 30 literal forms with huge integer powers, huge numeric text or 5 000-digit integers, and 6 flattening functions over 20 000 / 50 000 rows: a well-formed record '
-            'within the step budget AND within a 3 s wall-clock alarm, under an address-space limit of 4 GiB - an exact '
+            'within the step budget AND within a 3 s CPU-time alarm (wall-clock backstop 30 s), under an address-space limit of 4 GiB - an exact '
             'integer power, a factorial, 10**digits or a padding to 10^9 places stalls below the Python level and executes no '
             'line; non-trivial = all')
     min_cases = 300
@@ -719,24 +750,24 @@ class Blowups(Sub):
 
         def onalarm(signum, frame):
             raise WallTimeout()
-        old = signal.signal(signal.SIGALRM, onalarm)
+        old = _install(onalarm)
         prob = None
         try:
             # a machine under load can make an honest parse miss the first alarm: a timeout is confirmed once with an
             # alarm eight times as long before it is reported
             for seconds in (self.ALARM, 8 * self.ALARM):
-                signal.alarm(seconds)
+                _arm(seconds)
                 try:
                     prob, raw = run_parse(env, p, text, per_char)
                     break
                 except WallTimeout:
-                    prob = ('parse did not return within %d s of wall-clock time (and not within %d s before that; normal: < 10 ms): a '
+                    prob = ('parse did not return within %d s of CPU time (nor within ten times that in wall-clock time) (and not within %d s before that; normal: < 10 ms): a '
                             'computation below the Python level that grows with the VALUE of an argument' % (8 * self.ALARM, self.ALARM))
                 finally:
-                    signal.alarm(0)
+                    _disarm()
         finally:
-            signal.alarm(0)
-            signal.signal(signal.SIGALRM, old)
+            _disarm()
+            _restore(old)
         return prob
 
     def check(self, env, case):
@@ -860,7 +891,7 @@ REP_SMALL = ['1', '"', "'", '\\', 'a', '(', ')', ',', '.', '%', '^', '#', '!', '
 class Repetition(Sub):
     name = 'c01.repetition'
     rule = ('prefix + unit*N for 11 prefixes (incl. unterminated quotes), every unit from 55 lexemes and every pair of 20 '
-            'single characters, N in the bound: besides the step budget, each parse runs under a wall-clock alarm of 10 s '
+            'single characters, N in the bound: besides the step budget, each parse runs under a CPU-time alarm of 10 s (wall-clock backstop 100 s) '
             '(confirmed once at 40 s) - 4-5 orders of magnitude above the normal 0.1-1 ms - because a C-level stall such '
             'as catastrophic regex backtracking executes no Python lines; non-trivial = all')
     min_cases = 10
@@ -878,8 +909,8 @@ class Repetition(Sub):
 
         def onalarm(signum, frame):
             raise WallTimeout()
-        old = signal.signal(signal.SIGALRM, onalarm)
-        signal.alarm(seconds)
+        old = _install(onalarm)
+        _arm(seconds)
         try:
             try:
                 prob, raw = run_parse(env, p, text)
@@ -887,8 +918,8 @@ class Repetition(Sub):
             except WallTimeout:
                 return 'timeout'
         finally:
-            signal.alarm(0)
-            signal.signal(signal.SIGALRM, old)
+            _disarm()
+            _restore(old)
 
     def one(self, env, text):
         p = shared_parser(env)
@@ -897,7 +928,7 @@ class Repetition(Sub):
         if prob == 'timeout':
             prob = self.timed(env, env.new_parser(), text, 4 * self.ALARM)
             if prob == 'timeout':
-                prob = ('parse did not return within %d s of wall-clock time for a %d-character input (and not within %d s '
+                prob = ('parse did not return within %d s of CPU time (nor within ten times that in wall-clock time) for a %d-character input (and not within %d s '
                         'before that): a stall below the Python level' % (4 * self.ALARM, len(text), self.ALARM))
         if prob:
             return fail('parse(%r): %s' % (text, prob), None, None, case=['one', text])
